@@ -172,7 +172,7 @@ class ConvSim(WorldBase):
                  "name": g.choice(["", "A", "tensor-1", "Z z"]), "value": g.choice([0, 5, 2.5])}
             if kind == "tensor" and depth >= 2 and g.random() < 0.25:
                 # tuple coordinates: the dictionary form is checked at build time; the YAML form is known finding F13
-                a["flatten"] = {"levels": g.randint(1, depth - 1), "style": g.choice(["tuple", "pair", "pair"])}
+                a["flatten"] = {"levels": g.choice([depth - 1, g.randint(1, depth - 1)]), "style": g.choice(["tuple", "pair", "pair"])}
                 evs.append(["build", a])
                 continue
             evs.append(["build", a])
